@@ -95,8 +95,14 @@ pub struct Sim {
     race_keys: HashSet<(String, String, String)>,
     pub n_access: u64,
     pub access_by_op: BTreeMap<String, u64>,
-    /// items read with `try_get`/`all` semantics by someone (not evictable), and with get
+    /// get-misses per item
     pub getters: BTreeMap<String, u64>,
+    /// (task, item) of a `get` whose internal try_get has not happened yet
+    pending_get: HashSet<(usize, String)>,
+    pub get_reads: BTreeSet<String>,
+    pub bare_reads: BTreeSet<String>,
+    pub scanned_tys: BTreeSet<String>,
+    pub written_items: BTreeSet<String>,
 
     pub probes: BTreeMap<String, u64>,
     pub faults_fired: BTreeMap<String, u64>,
@@ -104,7 +110,7 @@ pub struct Sim {
 
     // storage
     pub storage: Vec<StorageOp>,
-    pub readbacks: Vec<(String, Option<bool>)>,
+    pub readbacks: Vec<(String, Option<bool>, String)>,
     pub open_writers: Vec<(u64, PathBuf, usize)>,
     next_writer: u64,
     evict: HashSet<String>,
@@ -268,6 +274,7 @@ impl Sim {
                     h = (h ^ fnv(v.as_bytes())).wrapping_mul(0x100000001b3);
                 }
                 let n = members.len();
+                self.scanned_tys.insert(ty.to_string());
                 self.scan_tab.entry(h).or_insert(members);
                 self.emit(|| format!("{job} scan {ty} n={n} h={h:x}"));
                 if job != MAIN {
@@ -286,6 +293,11 @@ impl Sim {
             }
             ("read", Some(id)) => {
                 let item = format!("{ty}:{id:?}");
+                if self.pending_get.remove(&(task, item.clone())) {
+                    self.get_reads.insert(item.clone());
+                } else {
+                    self.bare_reads.insert(item.clone());
+                }
                 let version = self.versions.get(&item).cloned().unwrap_or_else(|| "absent".to_string());
                 self.emit(|| format!("{job} read {item} = {version}"));
                 self.check_conflicts(&job, &item, false);
@@ -473,7 +485,12 @@ fn h_note(what: &'static str, ty: &'static str, id: &dyn Debug) {
         let item = format!("{ty}:{id:?}");
         sim.emit(|| format!("{job} {what} {item}"));
         match what {
+            "get" => {
+                sim.pending_get.insert((task, item.clone()));
+            }
             "miss" => {
+                // the get's internal try_get came back empty; a second try_get follows
+                sim.pending_get.insert((task, item.clone()));
                 sim.probe("get-miss");
                 *sim.getters.entry(item).or_default() += 1;
             }
@@ -504,6 +521,7 @@ fn h_wrote(ty: &'static str, id: &dyn Debug) {
         *n += 1;
         let version = format!("{job}#{n}");
         sim.emit(|| format!("{job} wrote {item} = {version}"));
+        sim.written_items.insert(item.clone());
         sim.versions.insert(item, version.clone());
         sim.by_ty.entry(ty).or_default().insert(idt, version);
     });
@@ -529,16 +547,72 @@ fn h_readback_enabled() -> bool {
     with(|sim| sim.plan().readback).unwrap_or(false)
 }
 
-fn h_readback(ty: &'static str, id: &dyn Debug, equal: Option<bool>) {
+fn first_difference(a: &[u8], b: &[u8]) -> String {
+    let (ta, tb) = (String::from_utf8_lossy(a), String::from_utf8_lossy(b));
+    let text = !ta.contains('\u{fffd}') && !tb.contains('\u{fffd}');
+    if text {
+        let (la, lb): (Vec<&str>, Vec<&str>) = (ta.lines().collect(), tb.lines().collect());
+        // hash-ordered collections make line order meaningless; look for content first
+        let (mut sa, mut sb) = (la.clone(), lb.clone());
+        sa.sort();
+        sb.sort();
+        if sa == sb && la != lb {
+            return "persisted forms hold the same lines in a different order".to_string();
+        }
+        if sa != sb {
+            let only_a: Vec<&str> = sa.iter().filter(|l| !sb.contains(l)).take(3).map(|l| l.trim()).collect();
+            let only_b: Vec<&str> = sb.iter().filter(|l| !sa.contains(l)).take(3).map(|l| l.trim()).collect();
+            if !only_a.is_empty() || !only_b.is_empty() {
+                return format!("only in what was written {only_a:?}, only in what was read back {only_b:?}");
+            }
+        }
+        for i in 0..la.len().max(lb.len()) {
+            let (x, y) = (la.get(i).copied().unwrap_or("<end>"), lb.get(i).copied().unwrap_or("<end>"));
+            if x != y {
+                return format!("line {}: written {:?}, read back {:?}", i + 1, x.trim(), y.trim());
+            }
+        }
+        "persisted forms are identical".to_string()
+    } else {
+        match a.iter().zip(b.iter()).position(|(x, y)| x != y) {
+            Some(i) => format!("byte {i} of {} vs {}", a.len(), b.len()),
+            None if a.len() != b.len() => format!("length {} vs {}", a.len(), b.len()),
+            None => "persisted forms are identical".to_string(),
+        }
+    }
+}
+
+fn h_readback(ty: &'static str, id: &dyn Debug, equal: Option<bool>, original: &[u8], restored: Option<&[u8]>) {
     with(|sim| {
         let item = format!("{ty}:{id:?}");
-        sim.probe(match equal {
-            Some(true) => "readback-equal",
-            Some(false) => "readback-DIFFERS",
-            None => "readback-parsed",
+        let same_bytes = restored == Some(original);
+        // A write-fonts table IS its binary form: two in-memory values that persist to the
+        // same bytes are the same table (e.g. Gpos with empty vs absent optional parts), so
+        // for those types the bytes decide; likewise the BE glyph, persisted as (name, glyf
+        // bytes). serde-persisted types must compare equal. Where the type offers no
+        // comparison there is no verdict: their persisted form may legitimately differ in the
+        // order of hash-ordered collections.
+        let verdict: Option<bool> = if ty.starts_with("write_fonts::") || ty == "fontbe::orchestration::Glyph" {
+            Some(same_bytes)
+        } else {
+            equal
+        };
+        sim.probe(match (verdict, equal) {
+            (Some(true), Some(false)) => "readback-equal-as-bytes-only",
+            (Some(true), _) => "readback-equal",
+            (Some(false), _) => "readback-DIFFERS",
+            (None, _) => "readback-parsed",
         });
-        sim.emit(|| format!("readback {item} {equal:?}"));
-        sim.readbacks.push((item, equal));
+        sim.emit(|| format!("readback {item} eq={equal:?} same_bytes={same_bytes}"));
+        let why = if verdict != Some(false) {
+            String::new()
+        } else {
+            match restored {
+                None => "the restored value panics when written again".to_string(),
+                Some(r) => first_difference(original, r),
+            }
+        };
+        sim.readbacks.push((item, verdict, why));
     });
 }
 
